@@ -302,7 +302,17 @@ def same_up_to_borderline(exp, flat):
     if not a or not b:
         return False
     near = lambda p, l: any(abs(p[0] - q[0]) <= F(1, 256) and abs(p[1] - q[1]) <= F(1, 256) for q in l)
-    return all(near(p, b) for p in a) and all(near(p, a) for p in b)
+
+    def tie_dropped(p, l):
+        """a crossing that sits exactly on subdivision boundaries of BOTH curves (both parameters within 2^-11 of a dyadic rational of
+        denominator <= 64) is found from several neighbouring pieces; which of them survives box tests decided by a tie differs between
+        exact and float arithmetic, and the duplicate filter (one report per two-decimal bucket of the first parameter) then keeps the
+        crossing in one report and drops it in the other in favour of a neighbour in the same or the adjacent bucket"""
+        dy = lambda v: abs(v * 64 - round(v * 64)) <= F(64, 2048)
+        if not (dy(p[0]) and dy(p[1])):
+            return False
+        return any(abs(round(p[0] * 100) - round(q[0] * 100)) <= 1 for q in l)
+    return all(near(p, b) or tie_dropped(p, b) for p in a) and all(near(p, a) or tie_dropped(p, a) for p in b)
 
 
 def env_hook(name, env, rng, fam):
